@@ -19,6 +19,7 @@ import (
 	"os"
 	"os/exec"
 	"path/filepath"
+	"runtime"
 	"sync"
 	"syscall"
 	"time"
@@ -217,34 +218,128 @@ type sxRun struct {
 
 // runSX runs the real binary; stdin may be nil
 func runSX(stdin []byte, timeout time.Duration, args ...string) sxRun {
-	c := exec.Command(os.Getenv("SX_BIN"), args...)
-	var so, se bytes.Buffer
-	c.Stdout, c.Stderr = &so, &se
-	if stdin != nil {
-		c.Stdin = bytes.NewReader(stdin)
-	}
-	t0 := time.Now()
-	if err := c.Start(); err != nil {
+	return runSXOn(false, stdin, timeout, args...)
+}
+
+// runSXOn: oneCPU = the process sees exactly one CPU (runtime.NumCPU() == 1), as on a single-vCPU machine
+func runSXOn(oneCPU bool, stdin []byte, timeout time.Duration, args ...string) sxRun {
+	p, err := startSX(oneCPU, stdin, args...)
+	if err != nil {
 		return sxRun{stderr: err.Error(), exit: -1}
 	}
-	donec := make(chan error, 1)
-	go func() { donec <- c.Wait() }()
+	return p.wait(timeout)
+}
+
+// a running sx process
+type sxProc struct {
+	cmd    *exec.Cmd
+	so, se bytes.Buffer
+	t0     time.Time
+	donec  chan error
+}
+
+// firstAllowedCPU: the lowest CPU number in this process's affinity mask (-1 if it cannot be read)
+func firstAllowedCPU() int {
+	var mask [128]uint64
+	n, _, e := syscall.RawSyscall(syscall.SYS_SCHED_GETAFFINITY, 0, uintptr(len(mask)*8), uintptr(unsafe.Pointer(&mask[0])))
+	if e != 0 {
+		return -1
+	}
+	for i := 0; i < int(n)/8 && i < len(mask); i++ {
+		for b := 0; b < 64; b++ {
+			if mask[i]&(1<<uint(b)) != 0 {
+				return i*64 + b
+			}
+		}
+	}
+	return -1
+}
+
+func startSX(oneCPU bool, stdin []byte, args ...string) (*sxProc, error) {
+	bin := os.Getenv("SX_BIN")
+	p := &sxProc{donec: make(chan error, 1)}
+	cpu := -1
+	if oneCPU {
+		cpu = firstAllowedCPU()
+	}
+	taskset, terr := exec.LookPath("taskset")
+	inherit := false // no taskset: the child inherits the affinity of the (locked) thread that forks it
+	switch {
+	case cpu >= 0 && terr == nil && os.Getenv("SXNET_NO_TASKSET") == "":
+		// taskset execs the program: same process, so signals reach sx itself
+		p.cmd = exec.Command(taskset, append([]string{"-c", fmt.Sprint(cpu), bin}, args...)...)
+	case cpu >= 0:
+		inherit = true
+		p.cmd = exec.Command(bin, args...)
+	default:
+		p.cmd = exec.Command(bin, args...)
+	}
+	p.cmd.Stdout, p.cmd.Stderr = &p.so, &p.se
+	if stdin != nil {
+		p.cmd.Stdin = bytes.NewReader(stdin)
+	}
+	p.t0 = time.Now()
+	var err error
+	if inherit {
+		err = startPinned(p.cmd, cpu)
+	} else {
+		err = p.cmd.Start()
+	}
+	if err != nil {
+		return nil, err
+	}
+	go func() { p.donec <- p.cmd.Wait() }()
+	return p, nil
+}
+
+// startPinned starts c from an OS thread whose affinity is {cpu}; the thread's own mask is restored afterwards
+func startPinned(c *exec.Cmd, cpu int) error {
+	runtime.LockOSThread()
+	defer runtime.UnlockOSThread()
+	var old, one [128]uint64
+	n, _, e := syscall.RawSyscall(syscall.SYS_SCHED_GETAFFINITY, 0, uintptr(len(old)*8), uintptr(unsafe.Pointer(&old[0])))
+	if e != 0 {
+		return e
+	}
+	one[cpu/64] = 1 << uint(cpu%64)
+	if _, _, e := syscall.RawSyscall(syscall.SYS_SCHED_SETAFFINITY, 0, n, uintptr(unsafe.Pointer(&one[0]))); e != 0 {
+		return e
+	}
+	err := c.Start()
+	syscall.RawSyscall(syscall.SYS_SCHED_SETAFFINITY, 0, n, uintptr(unsafe.Pointer(&old[0])))
+	return err
+}
+
+func (p *sxProc) signal(sig syscall.Signal) { p.cmd.Process.Signal(sig) }
+
+// exited reports whether the process has ended (without consuming the result)
+func (p *sxProc) exited() bool {
+	select {
+	case err := <-p.donec:
+		p.donec <- err
+		return true
+	default:
+		return false
+	}
+}
+
+func (p *sxProc) wait(timeout time.Duration) sxRun {
 	var r sxRun
 	select {
-	case err := <-donec:
+	case err := <-p.donec:
 		if ee, ok := err.(*exec.ExitError); ok {
 			r.exit = ee.ExitCode()
 		} else if err != nil {
 			r.exit = -1
 		}
 	case <-time.After(timeout):
-		c.Process.Kill()
-		<-donec
+		p.cmd.Process.Kill()
+		<-p.donec
 		r.timedOut = true
 		r.exit = -2
 	}
-	r.dur = time.Since(t0)
-	r.stdout, r.stderr = so.String(), se.String()
+	r.dur = time.Since(p.t0)
+	r.stdout, r.stderr = p.so.String(), p.se.String()
 	return r
 }
 
